@@ -165,8 +165,9 @@ class Table(dict):
 class Pkg:
     """type inference over `trees` (relpath -> ast.Module)."""
 
-    def __init__(self, trees, dotted_of=None):
+    def __init__(self, trees, dotted_of=None, closed_world=True):
         self.trees = trees
+        self.closed_world = closed_world
         self.dotted = dotted_of or {rp: (rp[:-len("/__init__.py")] if rp.endswith("/__init__.py") else rp[:-3]).replace("/", ".") for rp in trees}
         self.by_dotted = {v: k for k, v in self.dotted.items()}
         self.scopes = {}
@@ -205,6 +206,24 @@ class Pkg:
         self._mro_cache = {}
         self._rel_cache = {}
         self._root_cache = {}
+        # names that occur as the callee of some call / as a plain value somewhere in the package
+        self.called_names, self.value_names = set(), set()
+        for tree in trees.values():
+            for n in ast.walk(tree):
+                if isinstance(n, ast.Call):
+                    if isinstance(n.func, ast.Name):
+                        self.called_names.add(n.func.id)
+                    elif isinstance(n.func, ast.Attribute):
+                        self.called_names.add(n.func.attr)
+            for n in ast.walk(tree):
+                if isinstance(n, ast.Name) and isinstance(n.ctx, ast.Load):
+                    par = getattr(n, "_parent", None)
+                    if not (isinstance(par, ast.Call) and par.func is n):
+                        self.value_names.add(n.id)
+                elif isinstance(n, ast.Attribute) and isinstance(n.ctx, ast.Load):
+                    par = getattr(n, "_parent", None)
+                    if not (isinstance(par, ast.Call) and par.func is n):
+                        self.value_names.add(n.attr)
 
     # ------------------------------------------------------------------ index
     def _new_scope(self, kind, node, parent, relpath, cls, qualname):
@@ -421,6 +440,25 @@ class Pkg:
             self._rel_cache[name] = r
         return r
 
+    def narrow_self(self, f, atom):
+        """receiver atom ('obj', C) dispatched to method f defined in class D: if D is a proper
+        descendant of C the instance is a D (or below), not any C"""
+        d = getattr(f, "defcls", None)
+        if d and d != atom[1] and atom[1] in self.mro(d):
+            return frozenset([("obj", d)])
+        return frozenset([atom])
+
+    def closed_class(self, cname):
+        """every class related to cname is defined in the package, without metaclass"""
+        for k in self.related(cname):
+            ci = self.classes.get(k)
+            if ci is None:
+                if k != "object":
+                    return False
+            elif getattr(ci, "metaclass", False):
+                return False
+        return True
+
     def lookup_method(self, cname, m, after=None):
         """definers of method m visible from an instance whose static class is cname
         (own MRO first definer + overrides in descendants)."""
@@ -617,23 +655,33 @@ class Pkg:
         return r
 
     def attr_by_name(self, a):
-        r = TOP
+        r = BOT
+        known = False
         if self._cur is not None:
             self._deps.setdefault(("attrname", a), set()).add(self._cur)
         for (k, an), t in self.attr.items():
             if an == a:
                 r = join(r, t)
+                known = True
         for ci in self.classes.values():
             if a in ci.attrs:
                 r = join(r, self.ev(ci.attrs[a], self._module_scope[ci.relpath]))
+                known = True
             m = ci.methods.get(a)
             if m is not None and m.is_property:
                 r = join(r, self.ret_of(m))
-        return join(r, self.attr_wild.get(a, BOT))
+                known = True
+        w = self.attr_wild.get(a, BOT)
+        if w:
+            known = True
+        r = join(r, w)
+        if not known or not self.closed_world:
+            r = join(r, TOP)
+        return r
 
     def load_attr(self, t, a):
         r = BOT
-        unknown = not t
+        unknown = False
         for x in t:
             if x == "top":
                 unknown = True
@@ -656,7 +704,7 @@ class Pkg:
         return r
 
     def store_attr(self, t, a, v):
-        unknown = not t
+        unknown = False
         for x in t:
             if x == "top":
                 unknown = True
@@ -669,8 +717,9 @@ class Pkg:
     # ------------------------------------------------------------------- calls
     def bind_call(self, fs, pos, kws, self_t=None, star=False):
         params = list(fs.params)
-        if self_t is not None and params:
-            self.upd(self.env, (fs.id, params[0]), self_t)
+        if params and (self_t is not None or (getattr(fs, "defcls", None) and not fs.is_static)):
+            if self_t is not None:
+                self.upd(self.env, (fs.id, params[0]), self_t)
             params = params[1:]
         for p, t in zip(params, pos):
             self.upd(self.env, (fs.id, p), t if t else BOT)
@@ -715,7 +764,7 @@ class Pkg:
                         out.append((m, "super", True))
                 return out
             rt = self.ev(f.value, sc)
-            unknown = not rt
+            unknown = False
             for a in rt:
                 if a == "top":
                     unknown = True
@@ -785,7 +834,9 @@ class Pkg:
                 if "top" in t:
                     r = join(r, TOP)
                 return r
-            if t == TOP or not t:
+            if not t:
+                return BOT  # no value reaches this name (yet)
+            if t == TOP:
                 return self.builtin_call(f.id, n, pos, kws, sc)
             return TOP
         if isinstance(f, ast.Attribute):
@@ -808,7 +859,7 @@ class Pkg:
 
     def method_call(self, rt, m, n, pos, kws, sc, star=False):
         r = BOT
-        unknown = not rt
+        unknown = False
         a0 = pos[0] if pos else BOT
         for a in rt:
             if a == "top":
@@ -832,13 +883,13 @@ class Pkg:
             elif isinstance(a, tuple) and a[0] == "obj":
                 ms = self.lookup_method(a[1], m)
                 for f in ms:
-                    r = join(r, self.call_scope(f, pos, kws, None if f.is_static else frozenset([a]), star))
+                    r = join(r, self.call_scope(f, pos, kws, None if f.is_static else self.narrow_self(f, a), star))
                 if not ms:
-                    # callable attribute / external class
-                    at = self.attr_of_class(a[1], m) if a[1] in self.classes else TOP
-                    r = join(r, TOP)
                     if a[1] not in self.classes:
                         unknown = True
+                    elif not self.closed_class(a[1]) or any((k, m) in self.attr for k in self.related(a[1])) or m in self.attr_wild:
+                        r = join(r, TOP)  # callable attribute / external base class
+                    # else: no such method anywhere in a closed hierarchy -> the call raises: no value
             elif isinstance(a, tuple) and a[0] == "mod":
                 g = self.resolve_global(m, a[1])
                 got = False
@@ -865,10 +916,13 @@ class Pkg:
             else:
                 r = join(r, TOP)
         if unknown:
-            r = join(r, TOP)
-            if not self.sites(rt):
-                for f in self.methods_by_name.get(m, ()):
-                    r = join(r, self.call_scope(f, pos, kws, None, star))
+            defs = self.methods_by_name.get(m, ()) if not self.sites(rt) else ()
+            for f in defs:
+                r = join(r, self.call_scope(f, pos, kws, None, star))
+            if not defs or not self.closed_world:
+                # closed world by name: a method name defined by the analysed package, used on a receiver of
+                # unknown type inside the package, denotes one of those definitions (declared assumption)
+                r = join(r, TOP)
         return r
 
     def container_call(self, sid, m, n, pos, kws, sc):
@@ -1156,8 +1210,10 @@ class Pkg:
                 out = join(out, frozenset([("tupv", join(self.elem_of(l), self.elem_of(r)))]))
         if isinstance(op, ast.Mult) and ("str" in l or "str" in r):
             out = join(out, STR)
-        lu = "top" in l or not l
-        ru = "top" in r or not r
+        if not l or not r:
+            return out  # an operand has no value (yet): strict
+        lu = "top" in l
+        ru = "top" in r
         if "int" in l and "int" in r:
             out = join(out, INT)
         elif ("int" in l and ru) or ("int" in r and lu):
@@ -1470,6 +1526,24 @@ class Pkg:
         """chaotic iteration: a scope is re-run when a table entry it read has grown."""
         order = sorted(self.scopes.values(), key=lambda s: s.id)
         runs = {}
+        # entry points: nothing in the package calls them by name (or they are used as values / implicitly
+        # through the data model): their parameters are unknown from the start
+        for sc in order:
+            if sc.kind not in ("func", "lambda"):
+                continue
+            nm = sc.node.name if sc.kind == "func" else None
+            entry = sc.kind == "lambda" or nm not in self.called_names or nm in self.value_names
+            if nm and nm.startswith("__") and nm.endswith("__") and nm != "__init__":
+                entry = True
+            if nm == "__init__" and sc.cls and sc.cls not in self.called_names and not any(
+                    d in self.called_names for d in self.descendants(sc.cls)):
+                entry = True
+            if entry:
+                ps = list(sc.params)
+                if getattr(sc, "defcls", None) and not sc.is_static and ps:
+                    ps = ps[1:]
+                for p in ps + list(getattr(sc, "kwonly", ())):
+                    self.env[(sc.id, p)] = TOP
         for phase in (1, 2):
             self._dirty = set(self.scopes)
             while self._dirty:
@@ -1566,3 +1640,1123 @@ def show_ty(pkg, t, d=0):
     if len(parts) > 6:
         parts = parts[:6] + ["..."]
     return "|".join(parts) if parts else "bottom"
+
+
+# =====================================================================================
+# effect summaries
+# =====================================================================================
+def _walk_no_nested(node):
+    """walk a statement/expression (or a list of them) without entering nested function / class / lambda
+    bodies; a nested def is yielded itself but never entered -- also when it is the node given."""
+    stack = list(node) if isinstance(node, list) else [node]
+    stack.reverse()
+    while stack:
+        n = stack.pop()
+        yield n
+        if isinstance(n, (ast.FunctionDef, ast.AsyncFunctionDef, ast.ClassDef, ast.Lambda)):
+            continue
+        stack.extend(ast.iter_child_nodes(n))
+
+
+def _names(e):
+    return {n.id for n in ast.walk(e) if isinstance(n, ast.Name)}
+
+
+def _flat_targets(t):
+    if isinstance(t, (ast.Tuple, ast.List)):
+        for e in t.elts:
+            yield from _flat_targets(e)
+    elif isinstance(t, ast.Starred):
+        yield from _flat_targets(t.value)
+    else:
+        yield t
+
+
+LOGGER_NAMES = {"logger", "logging", "log", "LOGGER", "warnings"}
+ACI_FOLDS = {
+    # function name -> why folding a set with it does not depend on the order of the elements
+    "common_dom": "nearest common dominator: the meet of the dominator tree (associative, commutative, idempotent)",
+    "min": "minimum of a total order", "max": "maximum of a total order",
+}
+READONLY_CONTAINER = {"get", "items", "keys", "values", "copy", "index", "count", "union", "intersection", "difference",
+                      "symmetric_difference", "issubset", "issuperset", "isdisjoint", "__contains__", "most_common"}
+PURE_PREFIXES = ("get_", "is_", "has_")
+INJECTIVE_ATTRS = {"num": "reverse-post-order number: Graph.compute_rpo gives every node of a graph a distinct num"}
+
+
+class Effects:
+    def __init__(self, pkg):
+        self.pkg = pkg
+        self._alias = {}
+        self._direct = {}
+        self._calls = {}
+        self._summ = {}
+
+    # ---- roots -----------------------------------------------------------
+    def self_name(self, fs):
+        if fs.kind == "func" and getattr(fs, "defcls", None) and not fs.is_static and fs.params:
+            return fs.params[0]
+        return None
+
+    def alias_map(self, fs):
+        am = self._alias.get(fs.id)
+        if am is not None:
+            return am
+        am = {}
+        self._alias[fs.id] = am
+        if fs.kind != "func":
+            return am
+        assigns = []
+        for n in _walk_no_nested(list(fs.node.body)):
+            if isinstance(n, ast.Assign):
+                for t in n.targets:
+                    for ft in _flat_targets(t):
+                        if isinstance(ft, ast.Name):
+                            assigns.append((ft.id, n.value))
+            elif isinstance(n, (ast.AnnAssign, ast.NamedExpr)) and getattr(n, "value", None) is not None and isinstance(n.target, ast.Name):
+                assigns.append((n.target.id, n.value))
+            elif isinstance(n, (ast.For, ast.AsyncFor, ast.comprehension)):
+                for ft in _flat_targets(n.target):
+                    if isinstance(ft, ast.Name):
+                        assigns.append((ft.id, n.iter))
+            elif isinstance(n, ast.withitem) and n.optional_vars is not None:
+                for ft in _flat_targets(n.optional_vars):
+                    if isinstance(ft, ast.Name):
+                        assigns.append((ft.id, n.context_expr))
+        for _ in range(6):
+            changed = False
+            for name, val in assigns:
+                r = self.roots(val, fs, frozenset())
+                cur = am.get(name, frozenset())
+                if not r <= cur:
+                    am[name] = cur | r
+                    changed = True
+            if not changed:
+                break
+        return am
+
+    def roots(self, e, fs, stop=frozenset()):
+        """objects an expression may denote / be part of: 'self', ('param', p), ('free', n), 'local' (created here),
+        ('elem', n) for names in `stop` (loop variables of the loop under analysis)"""
+        out = set()
+        if isinstance(e, ast.Name):
+            if e.id in stop:
+                return frozenset([("elem", e.id)])
+            if e.id == self.self_name(fs):
+                return frozenset(["self"])
+            if e.id in fs.params or e.id in getattr(fs, "kwonly", ()) or e.id in (fs.vararg, fs.kwarg):
+                out.add(("param", e.id))
+                out |= self.alias_map(fs).get(e.id, frozenset())  # re-assigned parameters
+                return frozenset(out)
+            if e.id in fs.bound:
+                am = self.alias_map(fs)
+                r = am.get(e.id)
+                return r if r else frozenset(["local"])
+            return frozenset([("free", e.id)])
+        if isinstance(e, (ast.Attribute, ast.Subscript, ast.Starred)):
+            return self.roots(e.value, fs, stop)
+        if isinstance(e, ast.Call):
+            f = e.func
+            if isinstance(f, ast.Attribute):
+                if isinstance(f.value, ast.Call) and isinstance(f.value.func, ast.Name) and f.value.func.id == "super":
+                    out.add("self")
+                else:
+                    out |= self.roots(f.value, fs, stop)
+                if f.attr in ("get", "setdefault", "pop") and len(e.args) > 1:
+                    out |= self.roots(e.args[1], fs, stop)
+                return frozenset(out)
+            if isinstance(f, ast.Name):
+                t = self.pkg.lookup(f.id, fs)
+                if any(isinstance(a, tuple) and a[0] == "cls" for a in t):
+                    return frozenset(["local"])
+                if f.id in PURE_BUILTINS and not any(isinstance(a, tuple) and a[0] == "func" for a in t):
+                    if f.id in ("next", "min", "max", "iter", "reversed"):
+                        for a in e.args:
+                            out |= self.roots(a, fs, stop)
+                        return frozenset(out)
+                    return frozenset(["local"])
+                for a in e.args:
+                    out |= self.roots(a, fs, stop)
+                return frozenset(out) or frozenset(["local"])
+            return frozenset(["local"])
+        if isinstance(e, (ast.IfExp,)):
+            return self.roots(e.body, fs, stop) | self.roots(e.orelse, fs, stop)
+        if isinstance(e, ast.BoolOp):
+            for v in e.values:
+                out |= self.roots(v, fs, stop)
+            return frozenset(out)
+        if isinstance(e, ast.NamedExpr):
+            return self.roots(e.value, fs, stop)
+        if isinstance(e, (ast.Constant, ast.JoinedStr, ast.Compare, ast.UnaryOp)):
+            return frozenset()
+        return frozenset(["local"])
+
+    # ---- classification of one call ------------------------------------------
+    def call_kind(self, c, fs):
+        """-> list of ('mut', kind, receiver_expr) | ('pkg', [(scope, recv, bindself)]) | ('pure',) | ('unknown', text)"""
+        pkg = self.pkg
+        f = c.func
+        if isinstance(f, ast.Attribute):
+            base = f.value
+            while isinstance(base, (ast.Attribute, ast.Subscript, ast.Call)):
+                base = base.func if isinstance(base, ast.Call) else base.value
+            if isinstance(base, ast.Name) and base.id in LOGGER_NAMES:
+                return [("pure",)]
+            m = f.attr
+            callees = pkg.callees(c, fs)
+            rt = pkg.ev(f.value, fs)
+            sites = pkg.sites(rt)
+            kinds = {pkg.site_kind[s] for s in sites}
+            res = []
+            if sites or not callees:
+                if rt and rt <= (STR | NONE) and "str" in rt:
+                    return [("pure",)]
+                if m in LIST_ORDERED:
+                    res.append(("mut", "ordered", f.value))
+                elif m == "pop":
+                    if c.args and (kinds <= {"dict"} or not kinds):
+                        res.append(("mut", "keyed", f.value))
+                    else:
+                        res.append(("mut", "ordered", f.value))
+                elif m in KEYED_MUT:
+                    res.append(("mut", "keyed", f.value))
+                elif m in ("write", "writelines", "flush"):
+                    res.append(("mut", "ordered", f.value))
+                elif m in READONLY_CONTAINER or m in STR_TO_STR or m in STR_TO_INT or m in STR_TO_LIST:
+                    res.append(("pure",))
+                elif not callees:
+                    if m.startswith(PURE_PREFIXES):
+                        res.append(("pure",))
+                    elif sites:
+                        res.append(("pure",))
+                    else:
+                        res.append(("unknown", "call of %s() which no analysed class defines" % m))
+            if callees:
+                res.append(("pkg", callees))
+            return res
+        if isinstance(f, ast.Name):
+            t = pkg.lookup(f.id, fs)
+            callees = pkg.callees(c, fs)
+            if callees:
+                return [("pkg", callees)]
+            if f.id == "print":
+                return [("mut", "ordered", f)]
+            if f.id in PURE_BUILTINS or f.id in LOGGER_NAMES:
+                return [("pure",)]
+            if not t:
+                return [("pure",)]  # unreachable
+            return [("unknown", "call of %s() (not defined in the analysed package)" % f.id)]
+        return [("unknown", "call through %s" % ast.unparse(f)[:60])]
+
+    def arg_for(self, c, callee, p):
+        ps = list(callee.params)
+        if getattr(callee, "defcls", None) and not callee.is_static and ps:
+            ps = ps[1:]
+        if p in ps:
+            i = ps.index(p)
+            if i < len(c.args) and not any(isinstance(a, ast.Starred) for a in c.args[: i + 1]):
+                return c.args[i]
+        for k in c.keywords:
+            if k.arg == p:
+                return k.value
+        return None
+
+    # ---- direct effects + call list of one function -----------------------------
+    def analyse(self, fs):
+        if fs.id in self._direct:
+            return
+        direct, calls = [], []
+        self._direct[fs.id] = direct
+        self._calls[fs.id] = calls
+        body = fs.node.body if fs.kind == "func" else [fs.node.body]
+        for top in body:
+            for n in _walk_no_nested(top):
+                if isinstance(n, (ast.Assign, ast.AugAssign, ast.AnnAssign)):
+                    tgts = n.targets if isinstance(n, ast.Assign) else [n.target]
+                    for t in tgts:
+                        for ft in _flat_targets(t):
+                            if isinstance(ft, ast.Attribute):
+                                direct.append((self.roots(ft.value, fs), "attr"))
+                            elif isinstance(ft, ast.Subscript):
+                                direct.append((self.roots(ft.value, fs), "keyed"))
+                            elif isinstance(ft, ast.Name) and ft.id not in fs.bound:
+                                direct.append((frozenset([("free", ft.id)]), "attr"))
+                elif isinstance(n, ast.Delete):
+                    for t in n.targets:
+                        if isinstance(t, (ast.Subscript, ast.Attribute)):
+                            direct.append((self.roots(t.value, fs), "keyed"))
+                elif isinstance(n, ast.Call):
+                    for k in self.call_kind(n, fs):
+                        if k[0] == "mut":
+                            direct.append((self.roots(k[2], fs) if not isinstance(k[2], ast.Name) or k[2].id != "print" else frozenset([("free", "stdout")]), k[1]))
+                        elif k[0] == "unknown":
+                            r = set()
+                            if isinstance(n.func, ast.Attribute):
+                                r |= self.roots(n.func.value, fs)
+                            for a in n.args:
+                                r |= self.roots(a, fs)
+                            direct.append((frozenset(r), "unknown"))
+                        elif k[0] == "pkg":
+                            for callee, recv, bindself in k[1]:
+                                calls.append((n, callee, recv, bindself))
+
+    def summary(self, fs):
+        """set of (root, kind) -- root in 'self' | ('param', p) | ('free', n); kind in ordered|keyed|attr|unknown"""
+        if fs.id in self._summ:
+            return self._summ[fs.id]
+        # reachable call graph
+        reach, stack = {}, [fs]
+        while stack:
+            g = stack.pop()
+            if g.id in reach:
+                continue
+            reach[g.id] = g
+            self.analyse(g)
+            for _, callee, _, _ in self._calls[g.id]:
+                if callee.id not in reach and callee.id not in self._summ:
+                    stack.append(callee)
+        S = {gid: set() for gid in reach}
+        for gid, g in reach.items():
+            for roots, kind in self._direct[gid]:
+                for r in roots:
+                    if r != "local" and not (isinstance(r, tuple) and r[0] == "elem"):
+                        S[gid].add((r, kind))
+        changed = True
+        rounds = 0
+        while changed:
+            changed = False
+            rounds += 1
+            if rounds > 50:
+                raise AnalysisError("effect summaries did not converge")
+            for gid, g in reach.items():
+                for c, callee, recv, bindself in self._calls[gid]:
+                    sub = self._summ.get(callee.id)
+                    if sub is None:
+                        sub = S.get(callee.id, set())
+                    for root, kind in list(sub):
+                        for r in self.map_root(root, c, g, callee, recv, bindself, frozenset()):
+                            if r == "local" or (isinstance(r, tuple) and r[0] == "elem"):
+                                continue
+                            if (r, kind) not in S[gid]:
+                                S[gid].add((r, kind))
+                                changed = True
+        for gid in reach:
+            self._summ[gid] = frozenset(S[gid])
+        return self._summ[fs.id]
+
+    def map_root(self, root, c, caller, callee, recv, bindself, stop):
+        """translate a root of the callee's summary into roots of the caller at call c"""
+        if root == "self":
+            if bindself == "ctor":
+                return frozenset(["local"])
+            if recv == "super":
+                return frozenset(["self"]) if self.self_name(caller) else frozenset([("free", "self")])
+            if recv is None:
+                return frozenset()
+            return self.roots(recv, caller, stop)
+        if isinstance(root, tuple) and root[0] == "param":
+            a = self.arg_for(c, callee, root[1])
+            if a is None:
+                return frozenset()
+            return self.roots(a, caller, stop)
+        if isinstance(root, tuple) and root[0] == "free":
+            n = root[1]
+            # a closure variable of a nested callee that is a local of the caller
+            s = callee.parent
+            while s is not None and s.kind != "module":
+                if s is caller or n in s.bound:
+                    break
+                s = s.parent
+            if s is caller and (n in caller.bound):
+                return self.roots(ast.Name(id=n, ctx=ast.Load()), caller, stop)
+            return frozenset([root])
+        return frozenset([root])
+
+
+# =====================================================================================
+# consumption classification
+# =====================================================================================
+INSENS = "insensitive"
+SENS = "sensitive"
+FLOWS = "flows"
+UNDET = "undetermined"
+
+ORDER_FREE_FUNCS = {"len", "bool", "any", "all", "set", "frozenset", "isinstance", "type", "id", "Counter"}
+TRANSPARENT_FUNCS = {"list", "tuple", "iter", "reversed", "enumerate", "zip", "map", "filter", "deque"}
+FORMAT_FUNCS = {"str", "repr", "print", "format", "ascii"}
+SET_MUTATORS = {"add", "discard", "remove", "update", "clear", "difference_update", "intersection_update",
+                "symmetric_difference_update"}
+
+
+def norm_src(n):
+    return " ".join(ast.unparse(n).split()) if not isinstance(n, str) else " ".join(n.split())
+
+
+class Record:
+    __slots__ = ("relpath", "qualname", "lineno", "expr", "kind", "cats", "elem", "verdict", "reason", "construct",
+                 "node", "scope", "issues")
+
+    def as_dict(self):
+        return dict(file=self.relpath, qualname=self.qualname, line=self.lineno, expr=self.expr, kind=self.kind,
+                    categories=sorted(self.cats), elem=self.elem, verdict=self.verdict, reason=self.reason,
+                    construct=self.construct)
+
+
+class Classifier:
+    def __init__(self, pkg):
+        self.pkg = pkg
+        self.fx = Effects(pkg)
+        self._cfg = {}
+        self._loopcache = {}
+
+    # ------------------------------------------------------------------ driver
+    def run(self):
+        pkg = self.pkg
+        pkg._cur = None
+        recs = []
+        for sc in sorted(pkg.scopes.values(), key=lambda s: s.id):
+            if pkg.scope_of_node.get(id(sc.node)) is not sc:
+                continue  # duplicate lambda index
+            roots = list(sc.node.body) if sc.kind != "lambda" else [sc.node.body]
+            if sc.kind == "module":
+                # class bodies (class-level statements) belong to the module scope; methods are scopes of their own
+                extra = []
+                for st in roots:
+                    if isinstance(st, ast.ClassDef):
+                        extra += [b for b in st.body if not isinstance(b, (ast.FunctionDef, ast.AsyncFunctionDef, ast.ClassDef))]
+                roots += extra
+            for top in [0]:
+                for n in _walk_no_nested(roots):
+                    if not isinstance(n, (ast.Name, ast.Attribute, ast.Call, ast.Subscript, ast.BinOp, ast.Set, ast.SetComp,
+                                          ast.IfExp, ast.BoolOp, ast.NamedExpr)):
+                        continue
+                    if isinstance(getattr(n, "ctx", None), (ast.Store, ast.Del)):
+                        continue
+                    t = pkg.ev(n, sc)
+                    if not pkg.sites(t, "set"):
+                        continue
+                    recs.append(self.record(n, sc, t))
+        return recs
+
+    def record(self, n, sc, t):
+        pkg = self.pkg
+        r = Record()
+        r.node, r.scope = n, sc
+        r.relpath, r.qualname, r.lineno = sc.relpath, sc.qualname, getattr(n, "lineno", 0)
+        r.expr = norm_src(n)[:100]
+        r.kind, r.cats, et = pkg.set_kind(t)
+        r.elem = show_ty(pkg, et)
+        r.issues = []
+        try:
+            v, why, construct = self.consumption(n, sc, False)
+        except RecursionError:
+            v, why, construct = UNDET, "classification recursion too deep", n
+        fsc = self.func_scope(sc)
+        if v in (SENS, UNDET) and fsc is not None and fsc.node.name == "__repr__" and fsc.parent.kind == "module":
+            v, why = INSENS, "debug representation (__repr__ is not emitted text; see rule debug-repr): " + why
+        r.verdict, r.reason = v, why
+        r.construct = norm_src(construct)[:300]
+        return r
+
+    # ------------------------------------------------------------- key functions
+    def key_verdict(self, call, sc, elem_cats):
+        """sorted/min/max(..., key=K): (ok, text).  ok True: K is a total, injective key (by a table entry);
+        False: K depends on addresses/hashes; None: not recognised"""
+        key = None
+        for k in call.keywords:
+            if k.arg == "key":
+                key = k.value
+        fname = call.func.id if isinstance(call.func, ast.Name) else "?"
+        if key is None or (isinstance(key, ast.Constant) and key.value is None):
+            if elem_cats and elem_cats <= {"int", "str"} and not ({"int", "str"} <= elem_cats):
+                return True, "%s() over %s elements uses their natural total order" % (fname, "/".join(sorted(elem_cats)))
+            if not elem_cats:
+                return True, "empty"
+            return None, "%s() without key over elements that have no total order" % fname
+        if isinstance(key, ast.Name):
+            if key.id in ("id", "hash", "repr"):
+                return False, "key=%s orders by address/hash" % key.id
+            if key.id in ("str", "int", "len") and elem_cats <= {"int", "str"}:
+                return True, "key=%s on scalar elements" % key.id
+            return None, "key=%s not recognised" % key.id
+        if isinstance(key, ast.Call) and isinstance(key.func, (ast.Name, ast.Attribute)) and (
+                (isinstance(key.func, ast.Name) and key.func.id == "attrgetter") or (isinstance(key.func, ast.Attribute) and key.func.attr == "attrgetter")):
+            names = [a.value for a in key.args if isinstance(a, ast.Constant)]
+            if any(a in INJECTIVE_ATTRS for a in names):
+                return True, "key=attrgetter(%s): %s" % (",".join(map(str, names)), INJECTIVE_ATTRS[[a for a in names if a in INJECTIVE_ATTRS][0]])
+            return None, "key=attrgetter(%s) not known to be injective" % names
+        if isinstance(key, ast.Lambda) and len(key.args.args) == 1:
+            p = key.args.args[0].arg
+            bad = [c for c in ast.walk(key.body) if isinstance(c, ast.Call) and isinstance(c.func, ast.Name) and c.func.id in ("id", "hash", "repr")]
+            if bad:
+                return False, "key calls %s(): orders by address/hash" % bad[0].func.id
+            comps = key.body.elts if isinstance(key.body, ast.Tuple) else [key.body]
+            inj = None
+            for c in comps:
+                while isinstance(c, ast.Call) and isinstance(c.func, ast.Name) and c.func.id in ("str", "int", "abs") and len(c.args) == 1:
+                    c = c.args[0]
+                if isinstance(c, ast.Attribute) and isinstance(c.value, ast.Name) and c.value.id == p and c.attr in INJECTIVE_ATTRS:
+                    inj = c.attr
+                if isinstance(c, ast.Name) and c.id == p and elem_cats <= {"int", "str"}:
+                    inj = "<element>"
+            if inj == "<element>":
+                return True, "key is the (scalar) element itself"
+            if inj:
+                return True, "key .%s: %s" % (inj, INJECTIVE_ATTRS[inj])
+            return None, "key %s not known to be injective" % norm_src(key)[:60]
+        return None, "key %s not recognised" % norm_src(key)[:60]
+
+    # ------------------------------------------------------------ consumption
+    def elem_cats(self, node, sc):
+        t = self.pkg.ev(node, sc)
+        et = joins(self.pkg.elem.get(s, BOT) for s in self.pkg.sites(t))
+        return self.pkg.categories(et)
+
+    def is_builtin(self, name_node, sc):
+        t = self.pkg.lookup(name_node.id, sc)
+        return t == TOP
+
+    def consumption(self, node, sc, seq, depth=0):
+        """what the context does with `node`, an expression whose value is a set (seq=False) or a sequence /
+        iterator in set-iteration order (seq=True).  -> (verdict, reason, construct)"""
+        if depth > 12:
+            return UNDET, "expression nesting too deep", node
+        pkg = self.pkg
+        p = getattr(node, "_parent", None)
+        what = "sequence in set order" if seq else "set"
+        if p is None:
+            return UNDET, "no context", node
+
+        # ---- call argument -------------------------------------------------
+        if isinstance(p, ast.Call) and (node in p.args or any(k.value is node for k in p.keywords)):
+            fn = p.func
+            if isinstance(fn, ast.Name) and self.is_builtin(fn, sc):
+                name = fn.id
+                if name in ORDER_FREE_FUNCS:
+                    return INSENS, "%s(...) does not depend on the order" % name, p
+                if name == "sum":
+                    cats = self.sum_cats(node, sc)
+                    if cats <= {"int"}:
+                        return INSENS, "sum() of numbers", p
+                    return SENS, "sum() concatenates/accumulates non-numbers in iteration order", p
+                if name in ("sorted", "min", "max"):
+                    if p.args and p.args[0] is node:
+                        ok, txt = self.key_verdict(p, sc, self.seq_elem_cats(node, sc))
+                        if ok:
+                            return INSENS, "%s(): %s" % (name, txt), p
+                        if ok is False:
+                            return SENS, "%s(): %s" % (name, txt), p
+                        return UNDET, "%s(): %s" % (name, txt), p
+                    return FLOWS, "argument of %s()" % name, p
+                if name == "next":
+                    return SENS, "next() takes an arbitrary (address-ordered) element", p
+                if name in TRANSPARENT_FUNCS:
+                    v, why, c = self.consumption(p, sc, True, depth + 1)
+                    if v == SENS:
+                        why = "%s(<set>) materialises the iteration order; %s" % (name, why)
+                    return v, why, c
+                if name in FORMAT_FUNCS:
+                    return SENS, "%s() renders the elements in iteration order" % name, p
+                if name in ("dict", "defaultdict", "OrderedDict"):
+                    return SENS, "dict insertion order follows the set order", p
+                if name in ("isinstance", "hasattr", "callable"):
+                    return INSENS, "type test", p
+                return UNDET, "passed to builtin %s()" % name, p
+            if isinstance(fn, ast.Attribute):
+                m = fn.attr
+                base = fn.value
+                while isinstance(base, (ast.Attribute, ast.Subscript, ast.Call)):
+                    base = base.func if isinstance(base, ast.Call) else base.value
+                if isinstance(base, ast.Name) and base.id in LOGGER_NAMES:
+                    return INSENS, "logging only (not emitted text)", p
+                rt = pkg.ev(fn.value, sc)
+                rk = {pkg.site_kind[s] for s in pkg.sites(rt)}
+                if "set" in rk and (m in SET_MUTATORS or m in SET_ALGEBRA or m in SET_PRED):
+                    return INSENS, "set algebra: %s()" % m, p
+                if m == "extend" or (m in ("append", "insert", "appendleft") and seq):
+                    if seq and m != "extend":
+                        return SENS, "a sequence in set order is stored in a list", p
+                    return SENS, "list.extend(<set>) appends the elements in iteration order", p
+                if m == "join" and "str" in rt:
+                    return SENS, "str.join renders the elements in iteration order", p
+                if m in ("format", "format_map") and "str" in rt:
+                    return SENS, "str.format renders the set in iteration order", p
+                if m in ("write", "writelines"):
+                    return SENS, "written in iteration order", p
+                if m == "update" and "dict" in rk:
+                    return SENS, "dict insertion order follows the set order", p
+            callees = pkg.callees(p, sc)
+            if callees:
+                if seq:
+                    return SENS, "a sequence in set order is passed to %s()" % (fn.attr if isinstance(fn, ast.Attribute) else getattr(fn, "id", "?")), p
+                return FLOWS, "passed to %s (parameter types are tracked)" % callees[0][0].qualname, p
+            if isinstance(fn, ast.Attribute) and fn.attr in ("append", "add", "setdefault", "get", "insert") and not seq:
+                return FLOWS, "the set itself is stored in a container (element types are tracked)", p
+            return UNDET, "passed to %s, which is not analysed" % norm_src(fn)[:50], p
+
+        # ---- method of the set ---------------------------------------------
+        if isinstance(p, ast.Attribute) and p.value is node:
+            gp = getattr(p, "_parent", None)
+            m = p.attr
+            if isinstance(gp, ast.Call) and gp.func is p:
+                if seq:
+                    if m in ("index", "count", "copy"):
+                        return (INSENS if m == "count" else SENS), "sequence method %s()" % m, gp
+                    return SENS, "sequence method %s() on a sequence in set order" % m, gp
+                if m in SET_MUTATORS or m in SET_PRED or m == "__contains__":
+                    return INSENS, "set %s()" % m, gp
+                if m in SET_ALGEBRA:
+                    return INSENS, "set algebra %s() (the result is again a set)" % m, gp
+                if m == "pop":
+                    return self.pop_consumption(gp, node, sc)
+                return UNDET, "method %s() of a set" % m, gp
+            return UNDET, "attribute %s of a set" % m, p
+
+        # ---- comparisons / truthiness ----------------------------------------
+        if isinstance(p, ast.Compare):
+            ops = p.ops
+            if node in p.comparators:
+                i = p.comparators.index(node)
+                if isinstance(ops[i], (ast.In, ast.NotIn)):
+                    return INSENS, "membership test", p
+            if seq:
+                return SENS, "a sequence in set order is compared", p
+            return INSENS, "set comparison", p
+        if isinstance(p, ast.UnaryOp) and isinstance(p.op, ast.Not):
+            return INSENS, "truth test", p
+        if isinstance(p, (ast.If, ast.While, ast.IfExp, ast.Assert)) and p.test is node:
+            return INSENS, "truth test", p
+        if isinstance(p, ast.BoolOp):
+            gp = getattr(p, "_parent", None)
+            if isinstance(gp, (ast.If, ast.While, ast.IfExp, ast.Assert)) and gp.test is p:
+                return INSENS, "truth test", p
+            if isinstance(gp, ast.UnaryOp) and isinstance(gp.op, ast.Not):
+                return INSENS, "truth test", p
+            if p.values[-1] is not node and isinstance(p.op, ast.And):
+                # `S and x`: S is only tested unless it is the last operand
+                pass
+            return self.consumption(p, sc, seq, depth + 1)
+        if isinstance(p, ast.IfExp):
+            return self.consumption(p, sc, seq, depth + 1)
+
+        # ---- iteration -----------------------------------------------------------
+        if isinstance(p, (ast.For, ast.AsyncFor)) and p.iter is node:
+            return self.loop_consumption(p, sc)
+        if isinstance(p, ast.comprehension) and p.iter is node:
+            comp = getattr(p, "_parent", None)
+            if isinstance(comp, ast.SetComp):
+                eff = self.comp_effects(comp, p, sc)
+                if eff:
+                    return eff
+                return INSENS, "set comprehension: element-wise map into a set", comp
+            if isinstance(comp, ast.DictComp):
+                return SENS, "dict comprehension: insertion order follows the set order", comp
+            eff = self.comp_effects(comp, p, sc)
+            if eff:
+                return eff
+            v, why, c = self.consumption(comp, sc, True, depth + 1)
+            if v == SENS and isinstance(comp, ast.ListComp):
+                why = "list comprehension over a set; " + why
+            return v, why, c
+
+        # ---- operators ---------------------------------------------------------------
+        if isinstance(p, ast.BinOp):
+            if isinstance(p.op, ast.Mod) and (p.right is node):
+                return SENS, "%%-formatting renders the %s in iteration order" % what, p
+            if not seq and isinstance(p.op, (ast.BitOr, ast.BitAnd, ast.Sub, ast.BitXor)):
+                return INSENS, "set algebra", p
+            if seq or isinstance(p.op, (ast.Add, ast.Mult)):
+                return SENS, "sequence concatenation in set order", p
+            return UNDET, "operator %s on a set" % p.op.__class__.__name__, p
+        if isinstance(p, ast.AugAssign):
+            if p.value is node:
+                t = pkg.ev(Pkg._as_load(p.target), sc)
+                if not seq and pkg.sites(t, "set") and isinstance(p.op, (ast.BitOr, ast.BitAnd, ast.Sub, ast.BitXor)):
+                    return INSENS, "set algebra (augmented)", p
+                if pkg.sites(t, "list") or seq:
+                    return SENS, "list += <set>: appends in iteration order", p
+                return UNDET, "augmented assignment with a set", p
+        if isinstance(p, ast.Starred):
+            v, why, c = self.consumption(p, sc, True, depth + 1)
+            return v, ("star-unpacking in iteration order; " + why) if v == SENS else why, c
+        if isinstance(p, (ast.FormattedValue, ast.JoinedStr)):
+            return SENS, "f-string renders the %s in iteration order" % what, p
+        if isinstance(p, ast.Subscript):
+            if p.value is node:
+                return SENS, "indexing a sequence in set order", p
+            if seq:
+                return SENS, "a sequence in set order is used as a key", p
+            return FLOWS, "used as a key", p
+
+        # ---- bindings / escapes --------------------------------------------------------
+        if isinstance(p, (ast.Assign, ast.AnnAssign, ast.NamedExpr)):
+            tg = p.targets if isinstance(p, ast.Assign) else [p.target]
+            if any(isinstance(t, (ast.Tuple, ast.List)) for t in tg):
+                return SENS, "unpacking assigns the elements in iteration order", p
+            if seq:
+                return SENS, "the order-dependent sequence is stored in %s" % ", ".join(norm_src(t)[:40] for t in tg), p
+            return FLOWS, "bound to %s (types are tracked)" % ", ".join(norm_src(t)[:40] for t in tg), p
+        if isinstance(p, ast.Return):
+            if seq:
+                return SENS, "the order-dependent sequence is returned", p
+            return FLOWS, "returned (return types are tracked)", p
+        if isinstance(p, (ast.Yield, ast.YieldFrom)):
+            if seq or isinstance(p, ast.YieldFrom):
+                return SENS, "yields in set order", p
+            return FLOWS, "yielded", p
+        if isinstance(p, (ast.Tuple, ast.List, ast.Set)):
+            if seq:
+                gp = getattr(p, "_parent", None)
+                return SENS, "the order-dependent sequence is stored in a %s" % p.__class__.__name__.lower(), (gp if isinstance(gp, ast.expr) else p)
+            if isinstance(p, ast.Tuple) and isinstance(getattr(p, "_parent", None), ast.BinOp) and isinstance(p._parent.op, ast.Mod) and p._parent.right is p:
+                return SENS, "%-formatting renders the set in iteration order", p._parent
+            return FLOWS, "element of a literal (types are tracked)", p
+        if isinstance(p, ast.Dict):
+            if seq:
+                return SENS, "the order-dependent sequence is stored in a dict", p
+            return FLOWS, "dict value", p
+        if isinstance(p, ast.keyword):
+            gp = getattr(p, "_parent", None)
+            return UNDET, "keyword argument", gp or p
+        if isinstance(p, ast.Expr):
+            return INSENS, "value discarded", p
+        if isinstance(p, ast.Lambda):
+            return FLOWS, "lambda result", p
+        if isinstance(p, ast.withitem) or isinstance(p, ast.Delete):
+            return UNDET, "unusual context", p
+        return UNDET, "context %s not understood" % p.__class__.__name__, p
+
+    def sum_cats(self, node, sc):
+        return self.seq_elem_cats(node, sc)
+
+    def seq_elem_cats(self, node, sc):
+        t = self.pkg.ev(node, sc)
+        return self.pkg.categories(self.pkg.elem_of(t))
+
+    def comp_effects(self, comp, gen, sc):
+        """side effects inside a comprehension over a set (calls that mutate other objects in order)"""
+        parts = [comp.elt] if hasattr(comp, "elt") else [comp.key, comp.value]
+        parts += gen.ifs
+        tn = {n.id for ft in _flat_targets(gen.target) for n in [ft] if isinstance(n, ast.Name)}
+        fs = self.func_scope(sc)
+        if fs is None:
+            return None
+        issues = []
+        for part in parts:
+            for c in ast.walk(part):
+                if isinstance(c, ast.Call):
+                    self.call_issue(c, fs, sc, tn, tn, issues)
+        bad = [i for i in issues if i[0] == SENS]
+        if bad:
+            return SENS, "comprehension over a set: " + bad[0][1], comp
+        und = [i for i in issues if i[0] == UNDET]
+        if und:
+            return UNDET, "comprehension over a set: " + und[0][1], comp
+        return None
+
+    def func_scope(self, sc):
+        s = sc
+        while s is not None and s.kind == "lambda":
+            s = s.parent
+        return s if s is not None and s.kind == "func" else None
+
+    # ------------------------------------------------------------------ pop
+    def pop_consumption(self, call, setexpr, sc):
+        st = call
+        while st is not None and not isinstance(st, ast.stmt):
+            st = getattr(st, "_parent", None)
+        if isinstance(st, ast.Expr) and st.value is call:
+            return SENS, "pop() removes an arbitrary (address-ordered) element", call
+        if isinstance(st, ast.Assign) and st.value is call and len(st.targets) == 1 and isinstance(st.targets[0], ast.Name):
+            x = st.targets[0].id
+            par = getattr(st, "_parent", None)
+            src = ast.dump(setexpr)
+            # drain loop: while S: x = S.pop(); ...
+            if isinstance(par, ast.While) and st in par.body:
+                test = par.test
+                if isinstance(test, ast.Call) and isinstance(test.func, ast.Name) and test.func.id == "len" and test.args:
+                    test = test.args[0]
+                if ast.dump(test) == src and par.body.index(st) == 0 and not par.orelse:
+                    v, why, c = self.loop_body_verdict(par, [x], par.body[1:], sc, setexpr)
+                    return v, "drain loop (while S: x = S.pop()): " + why, "while %s: %s = %s.pop()" % (norm_src(par.test), x, norm_src(setexpr))
+            # fold: x = S.pop(); for y in S: x = F(.., x, y)
+            body = getattr(par, "body", None)
+            for blk in ("body", "orelse", "finalbody"):
+                b = getattr(par, blk, None)
+                if isinstance(b, list) and st in b:
+                    i = b.index(st)
+                    # skip statements that do not touch x or S
+                    j = i + 1
+                    while j < len(b) and not (_names(b[j]) & ({x} | _names(setexpr))):
+                        j += 1
+                    if j < len(b) and isinstance(b[j], ast.For) and ast.dump(b[j].iter) == src and not b[j].orelse:
+                        loop = b[j]
+                        if len(loop.body) == 1 and isinstance(loop.body[0], ast.Assign):
+                            f = self.fold_of(loop.body[0], sc)
+                            if f and isinstance(loop.body[0].targets[0], ast.Name) and loop.body[0].targets[0].id == x:
+                                return INSENS, "seed of a fold with %s (%s)" % (f, ACI_FOLDS[f]), call
+            return SENS, "pop() yields an arbitrary (address-ordered) element that is used afterwards", call
+        return SENS, "pop() yields an arbitrary (address-ordered) element", call
+
+    def fold_of(self, st, sc):
+        """`t = F(.., t, ..)` with F an order-independent fold -> F's name"""
+        if not isinstance(st, ast.Assign) or not isinstance(st.value, ast.Call):
+            return None
+        f = st.value.func
+        name = f.id if isinstance(f, ast.Name) else (f.attr if isinstance(f, ast.Attribute) else None)
+        if name not in ACI_FOLDS:
+            return None
+        if name in ("min", "max"):
+            if not (isinstance(f, ast.Name) and self.is_builtin(f, sc)):
+                return None
+            if any(k.arg == "key" for k in st.value.keywords):
+                ok, _ = self.key_verdict(st.value, sc, set())
+                if not ok:
+                    return None
+        else:
+            callees = self.pkg.callees(st.value, sc)
+            if not callees or any(c[0].node.name != name for c in callees):
+                return None
+        argd = {ast.dump(a) for a in st.value.args}
+        hit = False
+        for t in st.targets:
+            if ast.dump(Pkg._as_load(t)) in argd:
+                hit = True
+            elif not isinstance(t, ast.Name):
+                return None
+        return name if hit else None
+
+    # ----------------------------------------------------------------- loops
+    def loop_consumption(self, loop, sc):
+        tnames = [ft.id for ft in _flat_targets(loop.target) if isinstance(ft, ast.Name)]
+        if any(not isinstance(ft, ast.Name) for ft in _flat_targets(loop.target)):
+            return SENS, "loop target is an attribute/subscript: last element wins", "for %s in %s" % (norm_src(loop.target), norm_src(loop.iter))
+        v, why, _ = self.loop_body_verdict(loop, tnames, loop.body, sc, loop.iter)
+        if loop.orelse and v == INSENS:
+            pass
+        return v, why, "for %s in %s" % (norm_src(loop.target), norm_src(loop.iter))
+
+    def cfg_of(self, fs):
+        c = self._cfg.get(fs.id)
+        if c is None:
+            c = CFG(fs.node)
+            self._cfg[fs.id] = c
+        return c
+
+    def loop_body_verdict(self, loop, tnames, body, sc, setexpr):
+        key = (id(loop), tuple(tnames))
+        if key in self._loopcache:
+            return self._loopcache[key]
+        fs = self.func_scope(sc)
+        if fs is None or sc.kind != "func":
+            res = (UNDET, "loop outside a function body", loop)
+            self._loopcache[key] = res
+            return res
+        issues, notes = [], []
+        self.loop_issues(loop, tnames, body, fs, issues, notes)
+        bad = [i for i in issues if i[0] == SENS]
+        und = [i for i in issues if i[0] == UNDET]
+        if bad:
+            res = (SENS, "; ".join(dict.fromkeys(i[1] for i in bad[:3])), loop)
+        elif und:
+            res = (UNDET, "; ".join(dict.fromkeys(i[1] for i in und[:3])), loop)
+        else:
+            res = (INSENS, "loop body commutes: " + ("; ".join(list(dict.fromkeys(notes))[:4]) or "no effects"), loop)
+        self._loopcache[key] = res
+        return res
+
+    def dependent_names(self, tnames, body):
+        D = set(tnames)
+        changed = True
+        stmts = [n for s in body for n in _walk_no_nested(s)]
+        while changed:
+            changed = False
+            for n in stmts:
+                val, tg = None, []
+                if isinstance(n, ast.Assign):
+                    val, tg = n.value, n.targets
+                elif isinstance(n, (ast.AugAssign, ast.AnnAssign)) and n.value is not None:
+                    val, tg = n.value, [n.target]
+                elif isinstance(n, (ast.For, ast.comprehension)):
+                    val, tg = n.iter, [n.target]
+                elif isinstance(n, ast.NamedExpr):
+                    val, tg = n.value, [n.target]
+                if val is None:
+                    continue
+                if _names(val) & D:
+                    for t in tg:
+                        for ft in _flat_targets(t):
+                            if isinstance(ft, ast.Name) and ft.id not in D:
+                                D.add(ft.id)
+                                changed = True
+        return D
+
+    def loop_issues(self, loop, tnames, body, fs, issues, notes):
+        pkg = self.pkg
+        T = frozenset(tnames)
+        D = self.dependent_names(tnames, body)
+        stmts = [n for s in body for n in _walk_no_nested(s) if isinstance(n, ast.stmt)]
+        body_ids = {id(n) for s in body for n in _walk_no_nested(s)}
+        nonflag_effect = [False]
+
+        def dep(e):
+            return e is not None and bool(_names(e) & D)
+
+        def effect(sev, text):
+            issues.append((sev, text))
+
+        early = []
+        for st in stmts:
+            if isinstance(st, (ast.Assign, ast.AugAssign, ast.AnnAssign)):
+                if isinstance(st, ast.AnnAssign) and st.value is None:
+                    continue
+                tgts = st.targets if isinstance(st, ast.Assign) else [st.target]
+                fold = self.fold_of(st, fs) if isinstance(st, ast.Assign) else self.aug_fold(st, fs)
+                for t in tgts:
+                    for ft in _flat_targets(t):
+                        if isinstance(ft, ast.Name):
+                            self.local_write(loop, st, ft.id, st.value, fold, T, D, fs, body_ids, issues, notes, nonflag_effect)
+                        elif isinstance(ft, (ast.Attribute, ast.Subscript)):
+                            r = self.fx.roots(ft.value, fs, T)
+                            own = bool(r) and all(isinstance(x, tuple) and x[0] == "elem" for x in r)
+                            if own:
+                                notes.append("writes the element's own state (%s)" % norm_src(ft)[:40])
+                                nonflag_effect[0] = True
+                                continue
+                            if fold:
+                                notes.append("%s is a %s-fold (%s)" % (norm_src(ft)[:40], fold, ACI_FOLDS.get(fold, "commutative accumulation")))
+                                nonflag_effect[0] = True
+                                continue
+                            if isinstance(st, ast.AugAssign):
+                                effect(SENS, "%s %s= ... accumulates in iteration order" % (norm_src(ft)[:40], st.op.__class__.__name__))
+                                continue
+                            if isinstance(ft, ast.Subscript) and dep(ft.slice):
+                                notes.append("keyed write %s (key depends on the element)" % norm_src(ft)[:40])
+                                nonflag_effect[0] = True
+                            elif dep(st.value):
+                                effect(SENS, "last writer wins: %s = %s (the value depends on the element)" % (norm_src(ft)[:50], norm_src(st.value)[:50]))
+                            else:
+                                notes.append("idempotent write %s" % norm_src(ft)[:40])
+            elif isinstance(st, ast.Return):
+                early.append(st)
+                if dep(st.value):
+                    effect(SENS, "returns an element-dependent value from inside the loop (first match wins)")
+            elif isinstance(st, ast.Break):
+                early.append(st)
+            elif isinstance(st, ast.Delete):
+                for t in st.targets:
+                    if isinstance(t, (ast.Subscript, ast.Attribute)):
+                        notes.append("keyed delete")
+                        nonflag_effect[0] = True
+            elif isinstance(st, (ast.For, ast.AsyncFor)):
+                for ft in _flat_targets(st.target):
+                    if isinstance(ft, ast.Name):
+                        self.local_write(loop, st, ft.id, None, None, T, D, fs, body_ids, issues, notes, nonflag_effect, is_for=True)
+            elif isinstance(st, (ast.With, ast.AsyncWith, ast.Try, ast.Global, ast.Nonlocal, ast.Import, ast.ImportFrom)):
+                if isinstance(st, (ast.With, ast.AsyncWith)):
+                    effect(UNDET, "with-statement inside the loop body")
+        # yields and calls anywhere in the body (expressions of every statement, but not nested defs)
+        for s in body:
+            for n in _walk_no_nested(s):
+                if isinstance(n, (ast.Yield, ast.YieldFrom)):
+                    effect(SENS, "yields inside the loop: the generator produces values in set order")
+                elif isinstance(n, ast.Call):
+                    before = len(issues)
+                    nb = len(notes)
+                    self.call_issue(n, fs, fs, T, D, issues, notes)
+                    if len(notes) > nb:
+                        nonflag_effect[0] = True
+                elif isinstance(n, (ast.FunctionDef, ast.Lambda)) and n is not s:
+                    pass
+        if early and nonflag_effect[0] and not any(i[0] == SENS for i in issues):
+            effect(SENS, "early exit (%s) leaves the per-element effects applied to an order-dependent subset" % early[0].__class__.__name__.lower())
+
+    def aug_fold(self, st, fs):
+        if not isinstance(st, ast.AugAssign):
+            return None
+        if isinstance(st.op, (ast.BitOr, ast.BitAnd, ast.BitXor)):
+            return "bit-or/and"
+        if isinstance(st.op, (ast.Add, ast.Mult, ast.Sub)):
+            t = self.pkg.ev(Pkg._as_load(st.target), fs)
+            v = self.pkg.ev(st.value, fs)
+            if t and t <= (INT | NONE) and v and v <= INT:
+                return "sum"
+        return None
+
+    def local_write(self, loop, st, name, value, fold, T, D, fs, body_ids, issues, notes, nonflag, is_for=False):
+        if name in T:
+            return
+        if name not in fs.bound:
+            # closure / global variable
+            if fold:
+                notes.append("%s is a fold" % name)
+            elif value is not None and _names(value) & D:
+                issues.append((SENS, "last writer wins: non-local %s = %s" % (name, norm_src(value)[:50])))
+            return
+        if fold:
+            notes.append("%s is a %s-fold (%s)" % (name, fold, ACI_FOLDS.get(fold, "commutative accumulation")))
+            return
+        carried, escapes = self.reach(loop, st, name, fs, body_ids)
+        captured = self.captured(name, fs)
+        elem_dep = is_for or (value is not None and bool(_names(value) & D)) or (value is not None and self.has_impure_call(value, fs))
+        if isinstance(st, ast.AugAssign):
+            elem_dep = True
+            carried = True
+        if carried:
+            issues.append((SENS, "loop-carried state: %s is read in a later iteration before it is reassigned" % name))
+            return
+        if (escapes or captured) and elem_dep:
+            issues.append((SENS, "last writer wins: %s = %s is read after the loop" % (name, norm_src(value)[:50] if value is not None else "<loop variable>")))
+            return
+        if escapes and not elem_dep:
+            notes.append("idempotent flag %s" % name)
+
+    def has_impure_call(self, e, fs):
+        for c in ast.walk(e):
+            if isinstance(c, ast.Call):
+                ks = self.fx.call_kind(c, fs)
+                for k in ks:
+                    if k[0] in ("mut", "unknown"):
+                        return True
+        return False
+
+    def captured(self, name, fs):
+        for sub in getattr(fs, "nested", {}).values():
+            for n in ast.walk(sub.node):
+                if isinstance(n, ast.Name) and n.id == name and name not in sub.bound:
+                    return True
+        return False
+
+    @staticmethod
+    def _header_exprs(st):
+        """expressions evaluated by the CFG node `st` itself"""
+        if isinstance(st, (ast.If, ast.While)):
+            return [st.test]
+        if isinstance(st, (ast.For, ast.AsyncFor)):
+            return [st.iter]
+        if isinstance(st, (ast.With, ast.AsyncWith)):
+            return [i.context_expr for i in st.items]
+        if isinstance(st, ast.Try):
+            return []
+        if isinstance(st, (ast.FunctionDef, ast.AsyncFunctionDef, ast.ClassDef)):
+            return [st]
+        return [st]
+
+    def _uses(self, st, name):
+        if isinstance(st, ast.AugAssign) and isinstance(st.target, ast.Name) and st.target.id == name:
+            return True
+        for e in self._header_exprs(st):
+            for n in ast.walk(e):
+                if isinstance(n, ast.Name) and n.id == name and isinstance(n.ctx, ast.Load):
+                    return True
+        return False
+
+    @staticmethod
+    def _kills(st, name):
+        if isinstance(st, ast.Assign):
+            return any(isinstance(ft, ast.Name) and ft.id == name for t in st.targets for ft in _flat_targets(t))
+        if isinstance(st, (ast.AnnAssign, ast.AugAssign)):
+            return isinstance(st.target, ast.Name) and st.target.id == name and getattr(st, "value", None) is not None
+        if isinstance(st, (ast.For, ast.AsyncFor)):
+            return False  # the target is bound on the body edge only; treated as non-killing (conservative)
+        return False
+
+    def _binds_in_header(self, st, name):
+        return isinstance(st, (ast.For, ast.AsyncFor)) and any(
+            isinstance(ft, ast.Name) and ft.id == name for ft in _flat_targets(st.target))
+
+    def reach(self, loop, defst, name, fs, body_ids):
+        """does the definition of `name` at defst reach (a) a use inside the loop in a *later* iteration
+        (loop-carried), (b) a use outside the loop body?"""
+        cfg = self.cfg_of(fs)
+        g = cfg.g
+        if defst not in g:
+            return True, True
+        carried = escapes = False
+        seen = set()
+        stack = [(m, False) for m in g.successors(defst)]
+        while stack:
+            n, via_back = stack.pop()
+            nxt_back = via_back or (n is loop)
+            k = (id(n), nxt_back)
+            if k in seen:
+                continue
+            seen.add(k)
+            succ = list(g.successors(n))
+            if isinstance(n, ast.AST):
+                inside = id(n) in body_ids
+                if self._uses(n, name):
+                    if n is loop:
+                        if isinstance(loop, ast.While):
+                            carried = True
+                    elif not inside:
+                        escapes = True
+                    elif via_back:
+                        carried = True
+                if self._kills(n, name):
+                    continue
+                if self._binds_in_header(n, name):
+                    # entering the body rebinds the name; only the exit edge keeps the old value
+                    succ = cfg.succ(n, False)
+            for m in succ:
+                stack.append((m, nxt_back))
+        return carried, escapes
+
+    # ------------------------------------------------------------------ calls in loops
+    def call_issue(self, c, fs, sc, T, D, issues, notes=None):
+        notes = notes if notes is not None else []
+        fx = self.fx
+        T = frozenset(T)
+        kinds = fx.call_kind(c, fs)
+        argdep = any(_names(a) & set(D) for a in list(c.args) + [k.value for k in c.keywords])
+
+        def judge(roots, kind, what):
+            if not roots:
+                return
+            own = all((isinstance(x, tuple) and x[0] == "elem") for x in roots)
+            if own:
+                notes.append("%s only touches the element itself" % what)
+                return
+            if kind == "keyed":
+                notes.append("%s: set/dict-keyed update" % what)
+            elif kind == "ordered":
+                issues.append((SENS, "%s appends to an ordered container of another object, once per element, in iteration order" % what))
+            elif kind == "attr":
+                if argdep or (isinstance(c.func, ast.Attribute) and _names(c.func.value) & set(D)):
+                    issues.append((SENS, "%s rebinds an attribute of another object from element-dependent arguments (last writer wins)" % what))
+                else:
+                    notes.append("%s: idempotent attribute write" % what)
+            else:
+                issues.append((UNDET, "%s has effects that are not understood" % what))
+
+        for k in kinds:
+            if k[0] == "pure":
+                continue
+            if k[0] == "mut":
+                recv = k[2]
+                if isinstance(recv, ast.Name) and recv.id == "print":
+                    issues.append((SENS, "print() inside the loop"))
+                    continue
+                judge(fx.roots(recv, fs, T), k[1], "%s()" % norm_src(c.func)[:50])
+            elif k[0] == "unknown":
+                issues.append((UNDET, k[1]))
+            elif k[0] == "pkg":
+                for callee, recv, bindself in k[1]:
+                    summ = fx.summary(callee)
+                    for root, kind in sorted(summ, key=repr):
+                        rs = fx.map_root(root, c, fs, callee, recv, bindself, T)
+                        rs = frozenset(x for x in rs if x != "local") if bindself == "ctor" or True else rs
+                        # 'local' of the enclosing function is another object too, unless created by this call
+                        rs2 = fx.map_root(root, c, fs, callee, recv, bindself, T)
+                        if rs2 and all(x == "local" for x in rs2) and self.fresh_arg(root, c, callee, recv, bindself):
+                            continue
+                        judge(rs2, kind, "%s() [%s]" % (norm_src(c.func)[:40], callee.qualname))
+
+    def fresh_arg(self, root, c, callee, recv, bindself):
+        """the object the callee mutates is created in the call expression itself"""
+        if root == "self":
+            return bindself == "ctor" or (isinstance(recv, ast.Call) if recv is not None and recv != "super" else False)
+        if isinstance(root, tuple) and root[0] == "param":
+            a = self.fx.arg_for(c, callee, root[1])
+            return isinstance(a, (ast.Call, ast.List, ast.Dict, ast.Set, ast.ListComp, ast.DictComp, ast.SetComp, ast.Tuple, ast.Constant))
+        return False
